@@ -461,6 +461,8 @@ def _run_pair(case, ctx):
                 detail += "\n  agreeing with the formula: %s" % ", ".join(good)
             detail += ("\n  mesh %d points, %d qualifying, %d cut, %d invalid"
                        % (ref["npoints"], ref["nqual"], ref["ncut"], ref["ninvalid"]))
+            detail += ("\n--- C flavour ---\n%s--- Python flavour (%s: Iq.vectorized = False) ---\n%s"
+                       % (open(paths["c"]).read(), paths["pys"].rsplit("/", 1)[-1], open(paths["py"]).read()))
             r.fail(detail, fk, sub={"cfg": cfg}, nt=nt, trans=len(tags) * 2, branches=br)
             continue
         r.ok(nt=nt, outcome="%s:%s:q%d:c%d:i%d" % (cls, dim, min(ref["nqual"], 3), min(ref["ncut"], 1),
